@@ -1435,3 +1435,50 @@ def gen_table_dump():
 
 
 GENERATORS = GENERATORS + (('TableDump', gen_table_dump),)
+
+
+# ---------------------------------------------------------------------------------------------------------------------
+
+def gen_tolist():
+    """`Lattice._tolist`: the four parts of a stored concept, and the keys `Context.todict` writes."""
+    tree = _src('lattices.py')
+    m = _method(tree, 'Data', '_tolist')
+    body = _nodoc(m.body)
+    if len(body) != 1 or not isinstance(body[0], ast.Return) or not isinstance(body[0].value, ast.ListComp):
+        raise Decline('_tolist: body changed')
+    lc = body[0].value
+    if (len(lc.generators) != 1 or ast.unparse(lc.generators[0].target) != 'c' or ast.unparse(lc.generators[0].iter) != 'self._concepts'
+            or lc.generators[0].ifs or not isinstance(lc.elt, ast.Tuple) or len(lc.elt.elts) != 4):
+        raise Decline('_tolist: comprehension changed')
+    parts = []
+    for e in lc.elt.elts:
+        if not (isinstance(e, ast.Call) and isinstance(e.func, ast.Name) and e.func.id == 'tuple' and len(e.args) == 1):
+            raise Decline('_tolist: part %s' % ast.unparse(e))
+        a = e.args[0]
+        if (isinstance(a, ast.Call) and isinstance(a.func, ast.Attribute) and a.func.attr == 'iter_set' and not a.args
+                and isinstance(a.func.value, ast.Attribute) and isinstance(a.func.value.value, ast.Name) and a.func.value.value.id == 'c'):
+            parts.append((a.func.value.attr, 'iter_set'))
+        elif (isinstance(a, ast.GeneratorExp) and len(a.generators) == 1 and not a.generators[0].ifs
+                and isinstance(a.generators[0].target, ast.Name) and isinstance(a.elt, ast.Attribute)
+                and isinstance(a.elt.value, ast.Name) and a.elt.value.id == a.generators[0].target.id
+                and isinstance(a.generators[0].iter, ast.Attribute) and isinstance(a.generators[0].iter.value, ast.Name)
+                and a.generators[0].iter.value.id == 'c'):
+            parts.append((a.generators[0].iter.attr, a.elt.attr))
+        else:
+            raise Decline('_tolist: part %s' % ast.unparse(e))
+    ct = _src('contexts.py')
+    td = [ast.unparse(s) for s in _nodoc(_method(ct, 'ExportableMixin', 'todict').body)]
+    want = ["result = {'objects': self.objects, 'properties': self.properties, 'context': self._intents.index_sets()}",
+            "if ignore_lattice:\n    pass\nelif ignore_lattice is None and 'lattice' not in self.__dict__:\n    pass\nelse:\n    result['lattice'] = self.lattice._tolist()",
+            'return result']
+    if td != want:
+        raise Decline('Context.todict changed: %r' % td)
+    return '\n'.join([
+        '/- GENERATED by harness/extract2.py from Lattice._tolist in concepts/lattices.py (Context.todict compared with the expected',
+        '   statements) — do not edit. Per part of a stored concept: (attribute of the concept, how it is turned into indexes). -/',
+        'namespace FCA.Generated', '',
+        'def tolist_cfg : List (String × String) := [%s]' % ', '.join('("%s", "%s")' % p for p in parts), '',
+        'end FCA.Generated', ''])
+
+
+GENERATORS = GENERATORS + (('Tolist', gen_tolist),)
